@@ -5,6 +5,13 @@
 // holiman/uint256. Gas is not modelled; instead the caller gives two memory
 // limits: a request for memory >= MemHard is "certainly out of gas" (Fail), one
 // above MemSoft (or more than MaxSteps steps) makes the run Gray (not judged).
+//
+// Besides the computational set the reference executes CREATE (value 0 only),
+// SLOAD and SSTORE over its own world state, so that several hash-less initcodes
+// can run inside one call tree; and it knows the stack arity of every other
+// Ethereum opcode up to Cancun, so that stack under/overflow is judged for them
+// too. Environment pushers (ADDRESS, ORIGIN, ..., GAS) push an opaque word: its
+// value is never judged, a run that consumes it is OutOfScope from there on.
 package evmref
 
 import (
@@ -42,6 +49,7 @@ func (c Class) String() string {
 // Step is the machine state seen immediately before an instruction is
 // validated and executed.
 type Step struct {
+	Depth    int // 1 = the top frame
 	PC       uint64
 	Op       byte
 	StackLen int
@@ -56,6 +64,42 @@ type Config struct {
 	MemHard  uint64 // bytes; a request >= MemHard is certainly out of gas => Fail
 	MaxSteps int
 	Trace    bool
+	Self     Address // account whose code the top frame runs (call) / the creator (top-level create)
+	Origin   Address // caller of the top frame
+}
+
+// Address is a 20-byte account address.
+type Address [20]byte
+
+// Account is the part of an account the reference models.
+type Account struct {
+	Nonce   uint64
+	Code    []byte
+	Storage map[[32]byte]*big.Int // zero values are deleted
+}
+
+// World is the reference's state.
+type World struct{ Acc map[Address]*Account }
+
+func (w *World) copy() *World {
+	c := &World{Acc: make(map[Address]*Account, len(w.Acc))}
+	for a, acc := range w.Acc {
+		n := &Account{Nonce: acc.Nonce, Code: acc.Code, Storage: make(map[[32]byte]*big.Int, len(acc.Storage))}
+		for k, v := range acc.Storage {
+			n.Storage[k] = v
+		}
+		c.Acc[a] = n
+	}
+	return c
+}
+
+func (w *World) get(a Address) *Account {
+	acc := w.Acc[a]
+	if acc == nil {
+		acc = &Account{Storage: map[[32]byte]*big.Int{}}
+		w.Acc[a] = acc
+	}
+	return acc
 }
 
 // Result of a run.
@@ -68,20 +112,37 @@ type Result struct {
 	Steps  int
 	Trace  []Step
 	Hist   [256]uint32 // instructions that completed (halting instructions included)
-	Stack  []*big.Int  // final stack (bottom first)
+	Stack  []*big.Int  // final stack of the top frame (bottom first)
 	MemLen int
+
+	World          *World                        // final state (after the top-level revert, if any)
+	Created        []Address                     // every address a CREATE (or the top-level creation) targeted, in order
+	Touched        map[Address]map[[32]byte]bool // storage keys written at any time (also in reverted frames)
+	FailedChildren int                           // creations that ended in an exceptional halt (each burns 63/64 of the gas left)
+	MaxDepth       int
+	NewAddress     Address // top-level creation: the address of the new contract
 }
 
 type opInfo struct {
-	name string
-	pops int
-	push int
-	in   bool // member of the computational set
+	name   string
+	pops   int
+	push   int
+	in     bool // member of the computational set
+	spec   bool // an Ethereum opcode (<= Cancun) whose stack arity is known
+	opaque bool // nullary environment pusher: pushes a word whose value is not judged
+	impl   bool // outside the computational set but executed by the reference
 }
 
 var ops [256]opInfo
 
-func def(op byte, name string, pops, push int) { ops[op] = opInfo{name, pops, push, true} }
+func def(op byte, name string, pops, push int) {
+	ops[op] = opInfo{name: name, pops: pops, push: push, in: true, spec: true}
+}
+
+// other declares an opcode outside the computational set.
+func other(op byte, name string, pops, push int) {
+	ops[op] = opInfo{name: name, pops: pops, push: push, spec: true, opaque: pops == 0 && push == 1}
+}
 
 func init() {
 	def(0x00, "STOP", 0, 0)
@@ -137,7 +198,54 @@ func init() {
 	def(0xf3, "RETURN", 2, 0)
 	def(0xfd, "REVERT", 2, 0)
 	def(0xfe, "INVALID", 0, 0)
+
+	other(0x30, "ADDRESS", 0, 1)
+	other(0x31, "BALANCE", 1, 1)
+	other(0x32, "ORIGIN", 0, 1)
+	other(0x33, "CALLER", 0, 1)
+	other(0x34, "CALLVALUE", 0, 1)
+	other(0x3a, "GASPRICE", 0, 1)
+	other(0x3b, "EXTCODESIZE", 1, 1)
+	other(0x3c, "EXTCODECOPY", 4, 0)
+	other(0x3d, "RETURNDATASIZE", 0, 1)
+	other(0x3e, "RETURNDATACOPY", 3, 0)
+	other(0x3f, "EXTCODEHASH", 1, 1)
+	other(0x40, "BLOCKHASH", 1, 1)
+	other(0x41, "COINBASE", 0, 1)
+	other(0x42, "TIMESTAMP", 0, 1)
+	other(0x43, "NUMBER", 0, 1)
+	other(0x44, "PREVRANDAO", 0, 1)
+	other(0x45, "GASLIMIT", 0, 1)
+	other(0x46, "CHAINID", 0, 1)
+	other(0x47, "SELFBALANCE", 0, 1)
+	other(0x48, "BASEFEE", 0, 1)
+	other(0x49, "BLOBHASH", 1, 1)
+	other(0x4a, "BLOBBASEFEE", 0, 1)
+	other(0x54, "SLOAD", 1, 1)
+	other(0x55, "SSTORE", 2, 0)
+	other(0x5a, "GAS", 0, 1)
+	other(0x5c, "TLOAD", 1, 1)
+	other(0x5d, "TSTORE", 2, 0)
+	for i := 0; i <= 4; i++ {
+		other(byte(0xa0+i), "LOG"+itoa(i), 2+i, 0)
+	}
+	other(0xf0, "CREATE", 3, 1)
+	other(0xf1, "CALL", 7, 1)
+	other(0xf2, "CALLCODE", 7, 1)
+	other(0xf4, "DELEGATECALL", 6, 1)
+	other(0xf5, "CREATE2", 4, 1)
+	other(0xfa, "STATICCALL", 6, 1)
+	other(0xff, "SELFDESTRUCT", 1, 0)
+	for _, op := range []byte{0x54, 0x55, 0xf0} {
+		o := ops[op]
+		o.impl = true
+		ops[op] = o
+	}
 }
+
+// Spec reports whether op is an Ethereum opcode (<= Cancun) and its stack
+// arity (items required, items pushed).
+func Spec(op byte) (known bool, pops, push int) { return ops[op].spec, ops[op].pops, ops[op].push }
 
 func itoa(i int) string {
 	if i < 10 {
@@ -152,7 +260,7 @@ func InSet(op byte) bool { return ops[op].in }
 
 // Name returns the mnemonic of a set member, or "0x.." otherwise.
 func Name(op byte) string {
-	if ops[op].in {
+	if ops[op].spec {
 		return ops[op].name
 	}
 	const hexd = "0123456789abcdef"
@@ -227,13 +335,30 @@ func Word32(x *big.Int) []byte {
 	return out
 }
 
+// opaque is the word pushed by environment instructions; its value is not known
+// to the reference. Moving it around (POP / DUP / SWAP) is fine, consuming it
+// taints the run.
+var opaque = new(big.Int)
+
+type run struct {
+	cfg     *Config
+	res     *Result
+	world   *World
+	tainted bool
+}
+
+// machine is one call frame.
 type machine struct {
-	cfg   *Config
-	code  []byte
-	data  []byte
-	stack []*big.Int
-	mem   []byte
-	res   *Result
+	run    *run
+	cfg    *Config
+	code   []byte
+	data   []byte
+	self   Address
+	depth  int
+	stack  []*big.Int
+	mem    []byte
+	res    *Result
+	reason string
 }
 
 type halt struct {
@@ -244,6 +369,9 @@ type halt struct {
 func (m *machine) pop() *big.Int {
 	x := m.stack[len(m.stack)-1]
 	m.stack = m.stack[:len(m.stack)-1]
+	if x == opaque {
+		m.run.tainted = true
+	}
 	return x
 }
 func (m *machine) push(x *big.Int) { m.stack = append(m.stack, x) }
@@ -278,16 +406,91 @@ func padded(src []byte, off *big.Int, size uint64) []byte {
 	return out
 }
 
-// Run executes code with the given call data.
+// CreateAddress is keccak256(rlp([sender, nonce]))[12:].
+func CreateAddress(sender Address, nonce uint64) Address {
+	var nb []byte
+	switch {
+	case nonce == 0:
+		nb = []byte{0x80}
+	case nonce < 0x80:
+		nb = []byte{byte(nonce)}
+	default:
+		raw := new(big.Int).SetUint64(nonce).Bytes()
+		nb = append([]byte{byte(0x80 + len(raw))}, raw...)
+	}
+	payload := append(append([]byte{0x94}, sender[:]...), nb...)
+	enc := append([]byte{byte(0xc0 + len(payload))}, payload...)
+	k := sha3.NewLegacyKeccak256()
+	k.Write(enc)
+	var a Address
+	copy(a[:], k.Sum(nil)[12:])
+	return a
+}
+
+func newRun(cfg *Config) *run {
+	res := &Result{Touched: map[Address]map[[32]byte]bool{}}
+	return &run{cfg: cfg, res: res, world: &World{Acc: map[Address]*Account{}}}
+}
+
+func (r *run) finish(m *machine, c Class, reason string, ret []byte) *Result {
+	res := r.res
+	res.Class, res.Reason, res.Ret = c, reason, ret
+	res.Stack, res.MemLen = m.stack, len(m.mem)
+	res.World = r.world
+	return res
+}
+
+// Run executes code (installed at cfg.Self) with the given call data.
 func Run(code, calldata []byte, cfg *Config) *Result {
-	m := &machine{cfg: cfg, code: code, data: calldata, res: &Result{}}
-	res := m.res
+	r := newRun(cfg)
+	r.world.get(cfg.Self).Code = code
+	initial := r.world.copy()
+	m := &machine{run: r, cfg: cfg, code: code, data: calldata, self: cfg.Self, depth: 1, res: r.res}
+	c, ret := m.exec()
+	if c != Success {
+		r.world = initial // a failed / reverted top-level call leaves no trace
+	}
+	return r.finish(m, c, m.reason, ret)
+}
+
+// RunCreate executes initcode as a top-level contract creation sent by
+// cfg.Origin (nonce 0). On success Ret is the deployed code.
+func RunCreate(initcode []byte, cfg *Config) *Result {
+	r := newRun(cfg)
+	creator := r.world.get(cfg.Origin)
+	addr := CreateAddress(cfg.Origin, creator.Nonce)
+	creator.Nonce++
+	r.res.NewAddress = addr
+	r.res.Created = append(r.res.Created, addr)
+	initial := r.world.copy()
+	r.world.get(addr).Nonce = 1
+	m := &machine{run: r, cfg: cfg, code: initcode, self: addr, depth: 1, res: r.res}
+	c, ret := m.exec()
+	switch {
+	case c == Success && len(ret) > 24576:
+		return r.finish(m, Gray, "code-size-above-eip170", nil) // Rangers raises the EIP-170 limit: not judged
+	case c == Success:
+		r.world.get(addr).Code = ret
+	case c == Revert || c == Fail:
+		r.world = initial
+	}
+	return r.finish(m, c, m.reason, ret)
+}
+
+// exec runs the frame to its end.
+func (m *machine) exec() (Class, []byte) {
+	cfg, res, code := m.cfg, m.res, m.code
 	jd := JumpDests(code)
 	var pc uint64
-	finish := func(c Class, reason string, ret []byte) *Result {
-		res.Class, res.Reason, res.Ret = c, reason, ret
-		res.Stack, res.MemLen = m.stack, len(m.mem)
-		return res
+	if m.depth > res.MaxDepth {
+		res.MaxDepth = m.depth
+	}
+	finish := func(c Class, reason string, ret []byte) (Class, []byte) {
+		m.reason = reason
+		return c, ret
+	}
+	if len(code) == 0 { // nothing to execute (not even an implicit STOP step)
+		return finish(Success, "", nil)
 	}
 	for {
 		if res.Steps >= cfg.MaxSteps {
@@ -300,7 +503,7 @@ func Run(code, calldata []byte, cfg *Config) *Result {
 		res.Steps++
 		res.LastPC, res.LastOp = pc, op
 		if cfg.Trace {
-			res.Trace = append(res.Trace, Step{pc, op, len(m.stack), len(m.mem)})
+			res.Trace = append(res.Trace, Step{m.depth, pc, op, len(m.stack), len(m.mem)})
 		}
 		info := ops[op]
 		switch {
@@ -308,7 +511,7 @@ func Run(code, calldata []byte, cfg *Config) *Result {
 			return finish(Fail, "invalid-instruction", nil)
 		case op == 0x5f && !cfg.Push0, op == 0x5e && !cfg.Mcopy:
 			return finish(Fail, "undefined-instruction", nil)
-		case !info.in:
+		case !info.spec:
 			if neverAssigned(op) {
 				return finish(Fail, "undefined-instruction", nil)
 			}
@@ -320,8 +523,14 @@ func Run(code, calldata []byte, cfg *Config) *Result {
 		if len(m.stack)-info.pops+info.push > 1024 {
 			return finish(Fail, "stack-overflow", nil)
 		}
+		if !info.in && !info.impl && !info.opaque {
+			return finish(OutOfScope, "opcode "+Name(op), nil)
+		}
 		next := pc + 1
 		switch {
+		case info.opaque:
+			m.push(opaque)
+
 		case op == 0x00: // STOP
 			res.Hist[op]++
 			return finish(Success, "", nil)
@@ -368,8 +577,8 @@ func Run(code, calldata []byte, cfg *Config) *Result {
 				copy(m.mem[dst.Uint64():], padded(src, off, size.Uint64()))
 			}
 
-		case op == 0x50:
-			m.pop()
+		case op == 0x50: // POP does not look at the word
+			m.stack = m.stack[:len(m.stack)-1]
 		case op == 0x51: // MLOAD
 			off := m.pop()
 			if h := m.touch(off, big32); h != nil {
@@ -403,14 +612,44 @@ func Run(code, calldata []byte, cfg *Config) *Result {
 				copy(m.mem[dst.Uint64():], tmp)
 			}
 
+		case op == 0x54: // SLOAD
+			var k [32]byte
+			copy(k[:], Word32(m.pop()))
+			v := m.run.world.get(m.self).Storage[k]
+			if v == nil {
+				v = new(big.Int)
+			}
+			m.push(v)
+		case op == 0x55: // SSTORE
+			var k [32]byte
+			copy(k[:], Word32(m.pop()))
+			v := m.pop()
+			if !m.run.tainted {
+				if res.Touched[m.self] == nil {
+					res.Touched[m.self] = map[[32]byte]bool{}
+				}
+				res.Touched[m.self][k] = true
+				if v.Sign() == 0 {
+					delete(m.run.world.get(m.self).Storage, k)
+				} else {
+					m.run.world.get(m.self).Storage[k] = v
+				}
+			}
+
 		case op == 0x56: // JUMP
 			dst := m.pop()
 			if !dst.IsUint64() || dst.Uint64() >= uint64(len(code)) || !jd[dst.Uint64()] {
+				if m.run.tainted {
+					return finish(OutOfScope, "opaque operand", nil)
+				}
 				return finish(Fail, "bad-jump", nil)
 			}
 			next = dst.Uint64()
 		case op == 0x57: // JUMPI
 			dst, cond := m.pop(), m.pop()
+			if m.run.tainted {
+				return finish(OutOfScope, "opaque operand", nil)
+			}
 			if cond.Sign() != 0 {
 				if !dst.IsUint64() || dst.Uint64() >= uint64(len(code)) || !jd[dst.Uint64()] {
 					return finish(Fail, "bad-jump", nil)
@@ -438,8 +677,62 @@ func Run(code, calldata []byte, cfg *Config) *Result {
 			i, j := len(m.stack)-1, len(m.stack)-1-int(op-0x8f)
 			m.stack[i], m.stack[j] = m.stack[j], m.stack[i]
 
+		case op == 0xf0: // CREATE
+			value, off, size := m.pop(), m.pop(), m.pop()
+			if m.run.tainted {
+				return finish(OutOfScope, "opaque operand", nil)
+			}
+			if h := m.touch(off, size); h != nil {
+				return finish(h.class, h.reason, nil)
+			}
+			if value.Sign() != 0 {
+				return finish(OutOfScope, "CREATE with value", nil)
+			}
+			if m.depth >= 64 {
+				return finish(Gray, "create-depth", nil)
+			}
+			initcode := []byte{}
+			if size.Sign() != 0 {
+				initcode = append(initcode, m.mem[off.Uint64():off.Uint64()+size.Uint64()]...)
+			}
+			w := m.run.world
+			creator := w.get(m.self)
+			addr := CreateAddress(m.self, creator.Nonce)
+			creator.Nonce++
+			res.Created = append(res.Created, addr)
+			if ex := w.Acc[addr]; ex != nil && (ex.Nonce != 0 || len(ex.Code) != 0) {
+				res.FailedChildren++ // address collision: all gas passed on is lost
+				m.push(new(big.Int))
+				break
+			}
+			snapshot := w.copy()
+			fresh := w.get(addr)
+			fresh.Nonce, fresh.Code, fresh.Storage = 1, nil, map[[32]byte]*big.Int{}
+			child := &machine{run: m.run, cfg: cfg, code: initcode, self: addr, depth: m.depth + 1, res: res}
+			c, ret := child.exec()
+			switch c {
+			case Success:
+				if len(ret) > 24576 {
+					return finish(Gray, "code-size-above-eip170", nil)
+				}
+				w.get(addr).Code = ret
+				m.push(new(big.Int).SetBytes(addr[:]))
+			case Revert:
+				m.run.world.Acc = snapshot.Acc
+				m.push(new(big.Int))
+			case Fail:
+				res.FailedChildren++
+				m.run.world.Acc = snapshot.Acc
+				m.push(new(big.Int))
+			default:
+				return finish(c, child.reason, nil)
+			}
+
 		case op == 0xf3 || op == 0xfd: // RETURN / REVERT
 			off, size := m.pop(), m.pop()
+			if m.run.tainted {
+				return finish(OutOfScope, "opaque operand", nil)
+			}
 			if h := m.touch(off, size); h != nil {
 				return finish(h.class, h.reason, nil)
 			}
@@ -454,6 +747,9 @@ func Run(code, calldata []byte, cfg *Config) *Result {
 			return finish(Success, "", ret)
 		default:
 			return finish(OutOfScope, "opcode "+Name(op), nil)
+		}
+		if m.run.tainted {
+			return finish(OutOfScope, "opaque operand", nil)
 		}
 		res.Hist[op]++
 		pc = next
